@@ -640,8 +640,20 @@ func (st *smtpStack) modelLine(stream []byte, blocks [][]byte, budget string) st
 		return strings.Join(l, sep)
 	}
 	return fmt.Sprintf("run naming=%s %s maxrcpt=%d maxbytes=%d cap=%d domain=%s rhost=%s ts=%s ip=%s re=%s args=%s hdr=%s hookmail=%s hookrcpt=%s hookstored=%s fail=%s budget=%s inp=%s",
-		e.naming, e.pol.line(), e.maxRcpt, e.maxBytes, e.cap, core.HexS("inbucket.test"), core.HexS("pipe"), core.HexS("TS"), join(ips, ","),
+		e.naming, e.pol.line(), e.maxRcpt, e.maxBytes, e.cap, core.HexS("inbucket.test"), core.HexS("pipe"), core.HexS("TS"), smtpIPField(ips),
 		join(reEntries, ";"), join(argEntries, ";"), join(hdrEntries, ";"), hookTable(e.hookMail), hookTable(e.hookRcpt), join(hs, ";"), core.HexList(e.failBoxes), budget, core.Hex(stream))
+}
+
+// smtpIPField: the `ip=` field of a `run` line.  The SMTP model answers net.ParseIP with its own model (Ibx/Model/ParseIP.lean, tied to
+// the real function by the parseip leg, c04_parseip.go); VERIF_IP_ORACLE=1 ships Go's answers for the strings of this dialogue instead.
+func smtpIPField(ips []string) string {
+	if os.Getenv("VERIF_IP_ORACLE") == "1" {
+		if len(ips) == 0 {
+			return "-"
+		}
+		return strings.Join(ips, ",")
+	}
+	return "model"
 }
 
 // hdrOracle: what enmime makes of the block's headers, through the same calls Deliver makes.
